@@ -23,6 +23,25 @@ NOTES = {
  "C08-2a": "first run of C08 missed it (no failing CreateKeyPair whose private template is refused when applied; C09 caught it); the C08 pool gained poisoned creators for every template position",
  "C09-2b": "first run of C09 missed it (crash points at SQL-statement granularity cannot fall inside SQLite's commit); C09 gained SIGKILL at every write-class system call on the database files via strace",
  "C11-2b": "first run of C11 missed it (engine-level differential has no session; C12 caught it); C11 gained session pairs over one KmipSession",
+ "C02-3b": "first run: C02 is sequential by nature; C10 ended in a harness error (an unencodable pool item, since repaired) and after that missed it (no yield point while a response is encoded outside the engine lock); C10 now traces core/messages/messages.py and auth/*",
+ "C03-3a": "caught by C03; C15 missed it (attribute operations were only issued by the owner or refused strangers): C15 gained objects under an all-permissive policy and successful requests by non-owners",
+ "C03-3b": "a policy-file parsing change: C03 takes policies as ready-made tables by design, the parser is C18's (caught)",
+ "C04-3a": "a commit-failure fault, not a lifecycle path: caught by C09's commit-fault injection",
+ "C05-3a": "first run of C05 missed it (no history before the object under test exists; C07 caught the identifier reuse): C05 gained a 'before' history ending with a rich object that is destroyed again",
+ "C07-3a": "first run of C07 missed it (the destroyed identifier was never named again inside the same batch; C08 caught it): C07 gained then-probe / read-then-probe batches",
+ "C07-3b": "first run of C07 missed it (needs a COMMIT that keeps failing; C09's one-shot commit fault does not defeat a retry): C09 gained persistent commit failures",
+ "C08-3b": "first run of C08 missed it (no Locate between a creator and an identifier-less item): C08 gained the creator / other-object items / placeholder pattern and Locates of old objects in the pool",
+ "C09-3a": "needs a death during the first start on a new database file: C09 gained start-up crash points (this part was added while the confirmation was running; the previous version had none)",
+ "C10-3b": "needs an authentication plug-in and a switch during its HTTP round trip: C10 gained SLUGS workloads with a settings list shared by all sessions (added while the confirmation was running)",
+ "C11-3a": "first run of C11 missed it (prefix requests never carried a DiscoverVersions client list): C11 gained DiscoverVersions lists and header options in prefixes",
+ "C11-3b": "first run of C11 missed it (prefix requests never carried an Asynchronous Indicator): C11 gained header options in prefixes",
+ "C13-3a": "first run of C13 missed it (every identifier was spelled canonically): C13 gained alias spellings around a Destroy, C07 reads under an alias before the Destroy",
+ "C14-3a": "first run of C14 missed it (one Locate per request): C14 gained [Locate, Register, Locate] batches",
+ "C16-3a": "first run of C16 missed it (one request per connection; C11 and C12 caught it): C16 gained part g, version changes on one connection",
+ "C17-3b": "needs connections that report a descriptor number: the scripted connection gained fileno() (a reused number) while the confirmation was running; before that the change was invisible",
+ "C18-3a": "first run of C18 missed it (two files changing between two scans only in the random part): C18 gained exploration with composite letters",
+ "C19-3b": "needs the documented with-block: C19 gained calls inside `with client:` (added while the confirmation was running)",
+ "C20-3a": "first run of C20 missed it (a generated key that is never stored was unknown to the scanner; C13 caught the General Failure): C20 gained a pass-through spy on key generation and a creator x attribute grid under 1.4/2.0",
  "C11-2a": "a concurrency change: invisible to C11's sequential differential by nature, caught by C10 (schedules)",
  "C13-2a": "a concurrency change: invisible to C13's sequential grid by nature, caught by C10 (schedules)",
  "C16-2b": "a concurrency change: invisible to C16's sequential tables by nature, caught by C10 (schedules)",
